@@ -733,6 +733,30 @@ def parse_ins(line, types):
         ins.b = args
     elif op == 'fence':
         pass
+    elif op == 'cmpxchg':
+        c.eat('weak')
+        c.eat('volatile')
+        c.expect('ptr')
+        ins.a = parse_value(c, ('ptr',), types)
+        c.expect(',')
+        ins.ty = types.resolve(parse_type(c))
+        ins.b = parse_value(c, ins.ty, types)
+        c.expect(',')
+        t2 = types.resolve(parse_type(c))
+        ins.c = parse_value(c, t2, types)
+        m = re.search(r'align (\d+)', c.rest())
+        ins.align = int(m.group(1)) if m else types.alignof(ins.ty)
+        ins.x = True
+    elif op == 'atomicrmw':
+        c.eat('volatile')
+        ins.x = c.word()          # xchg add sub and nand or xor max min umax umin
+        c.expect('ptr')
+        ins.a = parse_value(c, ('ptr',), types)
+        c.expect(',')
+        ins.ty = types.resolve(parse_type(c))
+        ins.b = parse_value(c, ins.ty, types)
+        m = re.search(r'align (\d+)', c.rest())
+        ins.align = int(m.group(1)) if m else types.alignof(ins.ty)
     else:
         raise Unsupported('instruction: ' + text)
     return ins
@@ -757,6 +781,7 @@ class Global:
         self.align = 1
         self.constant = False
         self.external = False
+        self.thread_local = False
 
 
 _define = re.compile(r'^define\s')
@@ -824,6 +849,7 @@ class Module:
                 if w in ('external', 'extern_weak', 'available_externally'):
                     g.external = True
                 if w == 'thread_local':
+                    g.thread_local = True
                     c.ws()
                     if c.peek() == '(':
                         c.i = c.s.index(')', c.i) + 1
